@@ -93,7 +93,7 @@ Definition find_job (jobs : list jobS) (id : string) : option jobS :=
 (* populateDependantNeedsTypes: direct dependencies only *)
 Definition add_need (jobs : list jobS) (root : jobS) (props : list (string * sty)) (id : string) :=
   let i := lower id in
-  if String.eqb i (j_rawid root) then props   (* `i == root.ID.Value`: compared with the id as written *)
+  if String.eqb i (lower (j_rawid root)) then props   (* `i == strings.ToLower(root.ID.Value)` *)
   else match lookup i props with
        | Some _ => props
        | None => match find_job jobs i with
